@@ -739,6 +739,8 @@ def _parser_to_value_factory(parser,  # type: StrToValueParser[VE]
         # type: (str) -> VE
         if v == '':
             raise ValueError("The empty string is not a value")
+        if v.startswith('#'):
+            raise ValueError('The input "{v}" is whitespace or a comment: Expected a value')
         token_iter = iter(parser(v))
         t1 = next(token_iter, None)  # type: Optional[Union[TokenOrElement]]
         t2 = next(token_iter, None)
